@@ -960,9 +960,9 @@ func main() {
 	}
 	// trait-level readers that compose a response and project it
 	ctie := res.Tie("composed-readers", "K1",
-		"every trait-level reader that composes its response and then projects it, or pages over stored items and projects the page (openclosepb Model/ModelServer GetPositions and Model.PullPositions with derived presets; ListModes, ListHails, ListPublications, ListConsumables, ListInventory, ListChildren, ListBookings, ListWasteRecords) and the server-streaming Pull RPC of each of those services through the in-process wrapper (PullPositions, PullModes, PullHails, PullPublications, PullConsumables, PullInventory, PullChildren, PullBookings, PullWasteRecords: every seed value under the mask vs the same stream without a mask), on freshly generated populated instances: masked read vs the Lean filter of the UNMASKED read of the same instance; masks: nil, empty, every single path of the item's path tree to depth 2 (through repeated messages too), parent+child in both orders, unknown paths, random 1-3 paths to depth 3; subscriptions: seed + 2-4 single stored changes, an event is due exactly when the projection changes; non-trivial = non-empty mask; distinct by (reader, instance seed, mask)")
+		"every trait-level reader that composes its response and then projects it, or pages over stored items and projects the page (openclosepb Model/ModelServer GetPositions and Model.PullPositions with derived presets; ListModes, ListHails, ListPublications, ListConsumables, ListInventory, ListChildren, ListBookings, ListWasteRecords) and the server-streaming Pull RPC of each of those services through the in-process wrapper (PullPositions, PullModes, PullHails, PullPublications, PullConsumables, PullInventory, PullChildren, PullBookings, PullWasteRecords: every seed value under the mask vs the same stream without a mask; and, for the eight List/Pull services, the UPDATES: an unmasked and a masked client stream open on the same instance while 2-4 items are created / updated / deleted through the model, each write followed by a marker item: every change of the masked stream, old and new value, vs the change the unmasked stream delivers for the same write), on freshly generated populated instances: masked read vs the Lean filter of the UNMASKED read of the same instance; masks: nil, empty, every single path of the item's path tree to depth 2 (through repeated messages too), parent+child in both orders, unknown paths, random 1-3 paths to depth 3; subscriptions: seed + 2-4 single stored changes, an event is due exactly when the projection changes; non-trivial = non-empty mask; distinct by (reader, instance seed, mask)")
 	cmon := res.Monitor("composed-read-semantics",
-		"for every trait-level reader and mask: each returned item / delivered value = independent projection of the corresponding unmasked item of the same instance; same number of items; the unmasked read after the masked read equals the one before (stored state not altered), messages returned by earlier reads do not change, repeating the masked read gives the same result; subscriptions deliver an event exactly when the projection of the current value changes, each equal to that projection; no panic for any mask")
+		"for every trait-level reader and mask: each returned item / delivered value = independent projection of the corresponding unmasked item of the same instance; same number of items; the unmasked read after the masked read equals the one before (stored state not altered), messages returned by earlier reads do not change, repeating the masked read gives the same result; subscriptions deliver an event exactly when the projection of the current value changes, each equal to that projection; for the Pull RPC updates: the masked stream delivers, for every change the unmasked stream delivers, a change of the same kind whose old and new value are the projections (absent stays absent), and may leave one out only when both projections are equal; no panic for any mask")
 	runComposed(composedCases(g, f.N(12, 200), f.N(12, 120)), ctie, cmon, drv)
 	htie := res.Tie("shared-containers", "K1",
 		"a fresh TestAllTypes container whose repeated_foreign_message elements and default_foreign_message ARE 1-3 stored messages (the shape trait-level readers compose), with random owned fields, projected by ResponseFilter.Filter (in place) and FilterClone under masks that stay above, go below (nested, through the repeated field) or corrupt the shared fields: what the returned container shows AND every stored message afterwards, against the heap model (ScVerif/C06/Heap.lean: filterInPlace / filterCloneH); non-trivial = non-empty mask; distinct by (mode, mask, container, stored messages)")
@@ -971,6 +971,19 @@ func main() {
 		hcs = append(hcs, genHeapCase(g, []string{"clone", "inplace"}[i%2]))
 	}
 	runHeapCases(hcs, htie, cmon, drv)
+	ktie := res.Tie("collection-reads", "K1",
+		"a resource.Collection of 0-4 items (ids that sort in byte order: a, B, a1, x, y, zz) read with a list of read options that combines an include callback (one of a closed family of 8 shared with the Lean model: always, never, non-empty, id-or-non-empty, has default_int32, has default_foreign_message.c, id is not y, has default_string) with read masks (WithReadMask / WithReadPaths, nil, empty, nested, parent+child), UpdatesOnly and unrelated options in any order, on a plain collection or one with WithNoDuplicates: Collection.List, everything Collection.Pull delivers (seeds, then 0-5 Add/Update/Delete writes: UPDATE, ADD on entering and REMOVE on leaving the include set) and everything Collection.PullID delivers for an id (stored or not), and everything Value.Pull delivers on a resource.Value (with the same equivalence) that is given the same messages, each compared with the Lean model (ScVerif/C06/Coll.lean: listWith / pullStream / pullID; ValuePull.lean: valuePull) fed with what a plain subscriber of the same collection saw (the store in a shuffled order, the raw events) and with what the value published; an injected clock makes change times exact; a fixed family of small cases (callback on a field the mask leaves out, PullID on an item that does not sort last) runs first; non-trivial = an include callback and a non-nil mask are both in effect; distinct by the whole case")
+	kmon := res.Monitor("collection-read-semantics",
+		"for every case: List(options) = the stored items the LAST include callback accepts WHEN GIVEN THE STORED MESSAGE, in id order, each projected onto the mask of the last read-mask option; the seed values of Pull = the same items as ADD changes with their change times, the seed flag, the last-seed flag on the final one only (none under UpdatesOnly); every later change of the masked Pull = the projection (old and new value; same id, kind, time, flags) of the change the same subscription without its read-mask options delivers (with WithNoDuplicates: of one of them, in order); PullID: exactly one seed value first iff the id is stored and accepted (and not UpdatesOnly) = projection of the stored item, its change time, flagged seed and last seed, and every value = projection of what the unmasked PullID delivers; Value.Pull: the projection of what the same subscription without its read-mask options delivers (with WithNoDuplicates: each value the projection of a value the resource held, in order); no message the collection stored and no delivered change object is altered; no panic, no stall")
+	runCollCases(seededCollCases(), ktie, kmon, drv)
+	var kcs []kcase
+	for i, n := 0, f.N(700, 15000); i < n; i++ {
+		kcs = append(kcs, genCollCase(g))
+		if len(kcs) == 500 || i == n-1 {
+			runCollCases(kcs, ktie, kmon, drv)
+			kcs = kcs[:0]
+		}
+	}
 	if found, undriven := undrivenComposers(); len(undriven) > 0 {
 		res.Notes = append(res.Notes, fmt.Sprintf("composing call sites in pkg/trait (functions calling FilterClone/ResponseFilter/NewResponseFilter): %d found, not driven by a composed-readers row: %s", len(found), strings.Join(undriven, ", ")))
 	} else {
@@ -995,10 +1008,14 @@ func replay(f lib.Flags) int {
 		Options *[]string `json:"options"`
 		Reader  string    `json:"reader"`
 		Shared  bool      `json:"shared_container"`
+		Coll    bool      `json:"collection_read"`
 	}
 	_ = json.Unmarshal(b, &probe)
 	if probe.Reader != "" {
 		return replayComposed(b)
+	}
+	if probe.Coll {
+		return replayCollection(b)
 	}
 	if probe.Shared {
 		var c hcase
